@@ -325,6 +325,10 @@ func aRequest(st aStep, known map[string]aDef) (method, target, body string, ok 
 		q.Set("name", st.Name)
 		q.Set("method", map[string]string{"MarkAdd": "mark_add", "MarkDel": "mark_del"}[st.A])
 		for _, i := range st.IDs {
+			if i < 0 { // stands for the largest id the API parses (the specification's integers are small)
+				q.Add("stream", "18446744073709551615")
+				continue
+			}
 			q.Add("stream", strconv.Itoa(i))
 		}
 		return "PATCH", "/api/tags?" + q.Encode(), "", true
